@@ -357,7 +357,7 @@ def run(rep, tier, seed, tr_errors):
     cwd = os.getcwd()
     try:
         os.chdir(tmp)
-        plan = [(scenario_parse, 10 if tier == "quick" else 120), (scenario_circuit, 5 if tier == "quick" else 60), (scenario_fit, 2 if tier == "quick" else 16), (scenario_drt, 3 if tier == "quick" else 18)]
+        plan = [(scenario_parse, 24 if tier == "quick" else 120), (scenario_circuit, 10 if tier == "quick" else 60), (scenario_fit, 4 if tier == "quick" else 16), (scenario_drt, 6 if tier == "quick" else 18)]
         for fn, n in plan:
             for i in range(n):
                 try:
